@@ -194,17 +194,12 @@ def cell_values(case, paths):
     for f, p in zip(case['files'], paths):
         vals = []
         if f['rows']:
-            # a CSC file without any stored value cannot be opened by the implementation's reader
-            # (finding F2); when the statistics writer itself never opens it (no labelled cell in
-            # it) the run is still valid: its rows are all-zero by construction
-            no_reader = f['encoding'] == 'csc' and not case['M'][f['rows'], :].any()
+            # every file goes through the implementation's reader - a CSC file without any
+            # stored value included (the reader used to raise on it: finding F2, fixed)
             with quiet():
-                it = None if no_reader else AnnDataRowIterator(h5ad_path=p, row_chunk_size=1)
+                it = AnnDataRowIterator(h5ad_path=p, row_chunk_size=1)
                 for i in range(len(f['rows'])):
-                    if no_reader:
-                        ch = np.array(case['M'][[f['rows'][i]], :])
-                    else:
-                        ch = it.get_chunk(i, i + 1)[0]
+                    ch = it.get_chunk(i, i + 1)[0]
                     if not isinstance(ch, np.ndarray):
                         ch = ch.toarray()
                     src = case['M'][f['rows'][i], :]
@@ -421,10 +416,10 @@ def run_base(ctx, idx, case, n_cfg):
     rec.mkdir()
     paths = write_files(case, d)
     # a CSC-encoded file whose cells hold no stored value at all: the implementation's reader
-    # (AnnDataRowIterator -> csc_to_csr_on_disk -> transpose_sparse_matrix_on_disk) creates a
-    # dataset with chunks=(0,) and raises (finding F2 of C05/C13, reached here through the
-    # statistics writer).  Reproduce it through the PUBLIC entry point and report it under its
-    # own class; if the writer does not raise (defect fixed) the case runs normally.
+    # (AnnDataRowIterator -> csc_to_csr_on_disk -> transpose_sparse_matrix_on_disk) used to create
+    # a dataset with chunks=(0,) and raise (finding F2 of C05/C13, reached here through the
+    # statistics writer; fixed).  Such a file is first run through the PUBLIC entry point on its
+    # own account, so that a relapse is reported under its own class; then the case runs normally.
     empty_csc = [f for f in case['files']
                  if f['rows'] and f['encoding'] == 'csc' and not case['M'][f['rows'], :].any()]
     if empty_csc:
@@ -453,7 +448,17 @@ def run_base(ctx, idx, case, n_cfg):
                                'storage': case['storage'], 'raised': raised})
                 return None
             # some other error: not the known defect -> let the normal path report it
-    vals, work_eps = cell_values(case, paths)
+    try:
+        vals, work_eps = cell_values(case, paths)
+    except ValueError as e:
+        if empty_csc and 'chunk dimensions must be positive' in str(e):
+            # the same defect met by the reader itself (file without labelled cells: the writer skips it)
+            ctx.violation(f'AnnDataRowIterator raises on a CSC file without any stored value: ValueError: {e}'[:300],
+                          {'class': F2C, 'files': [dict(f) for f in case['files']],
+                           'M': case['M'].tolist(), 'normalization': case['normalization'],
+                           'storage': case['storage'], 'raised': f'ValueError: {e}'[:200], 'entry': 'reader'})
+            return None
+        raise
     k = scale_of(v for f in vals for row in f for v in row)
     enc = Enc(case)
     tdict = tree_dict(case)
@@ -959,7 +964,8 @@ def check_single_file(ctx, idx, rng):
         gen.write_h5ad(p, case['M'], cells, case['genes'], encoding=case['files'][0]['encoding'],
                        chunks=case['files'][0]['chunks'], obs_cols=cols)
     if case['files'][0]['encoding'] == 'csc' and not case['M'].any():
-        # see run_base: CSC file without any stored value (finding F2 reached through this entry point)
+        # see run_base: CSC file without any stored value (the former finding F2 reached through this
+        # entry point); when the call does not raise the case runs normally below
         try:
             with quiet():
                 pfa.precompute_summary_stats_from_h5ad(data_path=p, column_hierarchy=list(hier), taxonomy_tree=None,
@@ -1088,10 +1094,9 @@ def run(ctx):
                 'non-trivial = at least 2 clusters and 2 labelled cells (precompute), leaf level dropped (truncate), '
                 '>= 2 datasets and >= 2 leaves (merge)')
     ctx.assumptions += [
-        'a CSC-encoded input file whose cells hold no stored value makes the reader raise (h5py chunks=(0,), the defect '
-        'F2 of C05/C13): such cases are generated, the failure is reproduced through '
-        'precompute_summary_stats_from_h5ad_list_and_tree and reported under class ' + F2C + ' (known finding); '
-        'the rest of that case is skipped',
+        'CSC-encoded input files whose cells hold no stored value are generated and checked like every other file (the '
+        'reader used to raise on them - h5py chunks=(0,), the defect F2 of C05/C13, fixed; a relapse would be reported '
+        'under class ' + F2C + ')',
         'log2(CPM+1) per cell and gene is a model INPUT: the value the implementation\'s reader and normaliser '
         '(AnnDataRowIterator.get_chunk + CellByGeneMatrix.to_log2CPM_in_place) return for that cell alone',
         'cells with CPM in (1 - 1.4e-6, 1) are counted as ">= 1 CPM" by the code (threshold 1 - 1e-6 in log2 space); such '
